@@ -34,7 +34,8 @@ From FB.Spec Require Import Prog.
 From FB.Model Require Import Types Monad CreatedFiles SimpleOps Builder Persist Build Run Frame.
 From FB.Spec Require Import Ref Oracle Faithful.
 From FB.Model Require Import Core CoreOracle CoreCache.
-From FB.Proofs Require Import ReplayLaws BuildFileLaws FrameLaws CleanLaws CoreLaws2 CoreLaws5 CoreLaws6 CoreLaws7 CoreNextDefs CoreNextThm ViewDefs ViewInit ViewXDefs ViewXRun ViewR2 ViewR3 ViewK3 ViewK4 ViewK8 HashMemoInv HashMemoRun SimA0 SimAMain SimC0 SimC12 SimC13 SimD4 SimD9 SimE3 SimG1 SimG5 SimG6 SimC14 SimC15 SimD5 SimD7 SimF6 SimF8 SimJ4 SimJ10 SimM3 SimM6 RollbackLaws RollbackDirsLaws.
+From FB.Model Require Import PersistSpec.
+From FB.Proofs Require Import ReplayLaws BuildFileLaws FrameLaws CleanLaws CoreLaws2 CoreLaws5 CoreLaws6 CoreLaws7 CoreNextDefs CoreNextThm ViewDefs ViewInit ViewXDefs ViewXRun ViewR2 ViewR3 ViewK3 ViewK4 ViewK8 HashMemoInv HashMemoRun SimA0 SimAMain SimC0 SimC12 SimC13 SimD4 SimD9 SimE3 SimG1 SimG5 SimG6 SimC14 SimC15 SimD5 SimD7 SimF6 SimF8 SimJ4 SimJ10 SimM3 SimM6 SimN3 CacheRTOpen RollbackLaws RollbackDirsLaws.
 (* T1g: Model/BuildDirs.v and Model/CreatedFiles.v are equal to the translation of build_dirs.py / created_files.py
    (Gen/BookGen.v, regenerated on every run); a change of those sources that the model does not follow breaks this import *)
 From FB.Proofs Require BookGenLaws.
@@ -209,13 +210,16 @@ Proof. exact okcH_next_closed. Qed.
 (* ANY NUMBER OF BUILDS, partial (Proofs/SimF7-9.v, SimM4-6.v): for a list of successive builds starting without a cache file,
    every build returns the reference value and leaves the reference tree; for builds after the first no hypothesis
    about the class, WfCache, cache_wf or "the cache file is not an output" is left (they come from the previous build).
-   Still hypotheses per build (inside SideH / chainH, SimM6.v): faithful_cache and old_ok of the cache read, and `link`:
-   the cache the next build reads is the normal form of the cache the previous build held (SimF8.mech_readback_statement,
-   mech_next_cache_statement: not proved; C16's round-trip theorem is the cache-level half). *)
-Theorem C01_mechanism_chain_partial : forall cf nm l b,
+   The read-back is no longer a hypothesis (Proofs/SimH*.v: the committed cache is writable and the cache file holds its
+   serialisation; SimN1-3.v: hence the cache the next build reads is the normal form of the cache the previous build
+   held): chainN asks per step only that the next tree agrees with the previous final tree at the cache file, that the
+   clock does not run backwards, prog_paths_wf, and SideH - which still contains faithful_cache and old_ok of the cache
+   read (SimN3.next_faithful_statement, next_old_ok_statement: not proved; old_ok is derived in part:
+   SimN3.next_old_ok_partial). *)
+Theorem C01_mechanism_chain_partial : forall cf nm l b, path_wf cf = true ->
   lookup (w_fs (b_w b)) cf = None ->
-  SideH cf nm b -> chainH cf nm b l -> Forall (good cf nm) (b :: l).
-Proof. exact mech_chain_hash_partial. Qed.
+  SideH cf nm b -> prog_paths_wf (b_root b) -> chainN cf nm b l -> Forall (good cf nm) (b :: l).
+Proof. exact mech_chain_hash. Qed.
 
 (* the hypotheses are satisfiable: a content oracle read off the tree, and a concrete instance
    (a previous cache, a tree on which the replay succeeds) *)
